@@ -342,6 +342,50 @@ def _check_file_lengths(case):
     return 4, "ok", (width, rate, n), viols
 
 
+def _check_copy_independence(case):
+    """new() / getSubwav() give objects that share nothing with their source: every edit of the copy leaves the source as it was and
+    vice versa - also when the audio was handed over as a mutable bytes-like (bytearray)"""
+    width, rate, smp, ftype, op = case
+    raw = W.pack(list(smp), width)
+    frames = bytearray(raw) if ftype == "bytearray" else (memoryview(raw).tobytes() if ftype == "bytes-copy" else raw)
+    w = audio.Wav(frames, [1, width, rate, len(smp), "NONE", "not compressed"])
+    viols = []
+    n = 0
+    for how in ("new", "subwav"):
+        st, c, _ = call(w.new) if how == "new" else call(w.getSubwav, 0.0, len(smp) / rate)
+        tag = f"Wav({ftype} of {list(smp)}, width {width}).{how}() then {op}"
+        if st == "exc":
+            viols.append(Viol("copy-raised:" + type(c).__name__, f"{tag}: {c!r}"))
+            continue
+        if c is w:
+            viols.append(Viol("copy-is-source", tag))
+            continue
+        for target, other, who in ((c, w, "editing the copy changed the source"), (w, c, "editing the source changed the copy")):
+            before = bytes(other.frames)
+            k = op[0]
+            if k == "cat":
+                call(target.concatenate, W.pack(MARK, width))
+            elif k == "ins":
+                call(target.insert, op[1] / rate, W.pack(MARK, width))
+            elif k == "del":
+                call(target.deleteSegment, op[1] / rate, op[2] / rate)
+            else:
+                call(target.replaceSegment, op[1] / rate, op[2] / rate, W.pack(MARK, width))
+            n += 1
+            if bytes(other.frames) != before:
+                viols.append(Viol("copy-shares-audio", f"{tag}: {who}: {W.unpack(before, width)} -> {W.unpack(bytes(other.frames), width)}"))
+                break
+    return n, "ok", (ftype, op[0]), viols
+
+
+def _copy_cases():
+    for width, rate in ((2, 8), (1, 8000)):
+        for smp in ((1, 2, 3, 4), ()):
+            for ftype in ("bytes", "bytearray", "bytes-copy"):
+                for op in (("cat",), ("ins", 0), ("ins", 2), ("ins", 4), ("del", 0, 2), ("del", 1, 4), ("rep", 1, 3)):
+                    yield (width, rate, smp, ftype, op)
+
+
 def _check_edit_large(case):
     """one edit / extraction on a LONG recording (samples regenerated here from (width, rate, n)), same list model as the BFS"""
     width, rate, n, op = case
@@ -416,6 +460,9 @@ def parts(tier):
                   rule="every pair (op1, op2) of edit / query calls on ONE live Wav object for 2 recordings, followed by a getSamples/duration query, list "
                        "model in lock step (prime - edit - query)",
                   bounds={"sequence_length": 2}, chunk=2),
+        InputPart("copy-independence", _copy_cases, _check_copy_independence,
+                  rule="Wav.new() and getSubwav() of recordings handed over as bytes and as bytearray x 7 edits applied to the copy and to the source: the other "
+                       "object keeps every sample", bounds={}),
         InputPart("edit-large-recordings", lambda: _edit_large_cases(quick), _check_edit_large,
                   rule="one insert / insert-then-delete / deleteSegment / replaceSegment / getSubwav / concatenate on recordings of 1025 .. 65537 "
                        "(thorough 131073) samples, 3 (width, rate) pairs, at the first, second, middle, last sample and the end: same list model",
